@@ -112,6 +112,25 @@ def opMergeTree (j : Json) : R Json := do
   | .ok e => pure (Json.mkObj [("ok", viewJson e)])
   | .error e => pure (mergeErrJson e)
 
+def viewJsonE (v : EventView) : Json :=
+  Json.mkObj [("type", v.type), ("source", v.source),
+    ("props", Json.arr (v.props.map fun p => jPair p.1 (jStrs p.2)).toArray),
+    ("attIds", Json.arr (v.attIds.map fun p => jPair p.1 (jStrs p.2)).toArray),
+    ("parents", jStrs v.parents)]
+
+def opEquiv (j : Json) : R Json := do
+  let specs ← (← fldArr j "specs").mapM propSpec
+  let vp ← match fldOpt j "vp" with
+    | some v => pure (some (← str v))
+    | none => pure none
+  let a ← (← fldArr j "a").mapM event
+  let b ← (← fldArr j "b").mapM event
+  let ontEq ← fldBool j "ontEq"
+  if (a ++ b).any (fun e => e.props.any fun pv => !(specs.any (·.name == pv.1))) then throw "undeclared property"
+  match equiv specs vp ontEq a b with
+  | .ok r => pure (Json.mkObj [("ok", r)])
+  | .error e => pure (mergeErrJson e)
+
 def natList (j : Json) : R (List Nat) := do (← arr j).mapM fun x => x.getNat?
 
 def itemOf (j : Json) : R Item := do
@@ -169,6 +188,7 @@ def dispatch (j : Json) : R Json := do
   | "merge" => opMerge j
   | "mergetree" => opMergeTree j
   | "parse" => opParse j
+  | "equiv" => opEquiv j
   | x => throw s!"unknown op {x}"
 
 partial def loop (inp out : IO.FS.Stream) : IO Unit := do
